@@ -1002,12 +1002,12 @@ def hdmbrcheck(disk_mbr, sector_count, bootable):
         if bootable and status != PARTITION_STATUS_ACTIVE:
             _logger.warning('Warning: partition not marked active')
 
-        cyl = ((s_seccyl & 0xC0) << 10) | s_cyl
+        cyl = ((s_seccyl & 0xC0) << 2) | s_cyl
         sec = s_seccyl & 0x3f
         if cyl != 0 or s_head != 1 or sec != 1:
             _logger.warning('Warning: partition does not start at 0/1/1')
 
-        cyl = ((e_seccyl & 0xC0) << 10) | e_cyl
+        cyl = ((e_seccyl & 0xC0) << 2) | e_cyl
         sec = e_seccyl & 0x3f
         geometry_sectors = (cyl + 1) * (e_head + 1) * sec
 
